@@ -148,7 +148,8 @@ class Interp(object):
     @staticmethod
     def _expect(fields, decl):
         if not decl:
-            return dict(fields)
+            # keys named like eliot's own metadata are overwritten by eliot's values, so they are not expected as logged
+            return {k: v for k, v in fields.items() if k not in ("timestamp", "task_level", "task_uuid")}
         return {k: (SER[decl[k]](v) if k in decl else v) for k, v in fields.items()}
 
     # ----------------------------------------------------------------- running
@@ -179,6 +180,9 @@ class Interp(object):
         self.probe(cur, "before node %s" % node["nid"])
         if k == "msg":
             self.exec_msg(node, gt_children, cur)
+        elif k == "reseed":
+            import random as _random
+            _random.seed(node["seed"])  # what an application may do at any time; task identifiers must not depend on it
         elif k == "tb":
             self.exec_tb(node, gt_children, cur)
         elif k == "act":
@@ -551,7 +555,7 @@ class Interp(object):
         api = node["api"]
         via = node["via"]
         self.count("remote:%s:%s" % (api, via))
-        gt = {"kind": "action", "type": node["type"], "nid": node["nid"], "style": "remote:" + api, "start": dict(node["start"]),
+        gt = {"kind": "action", "type": node["type"], "nid": node["nid"], "style": "remote:" + api, "start": self._expect(node["start"], None),
               "status": "started", "end": None, "children": [], "remote": True}
         if api == "continue_task":
             gt["start"]["nid"] = node["nid"]
@@ -569,7 +573,7 @@ class Interp(object):
 
             def remote(expect_outer):
                 self.probe(expect_outer, "remote side of %s before continue_task" % node["nid"])
-                ok, action = self.api("continue_task", Action.continue_task, task_id=tid, action_type=node["type"], **gt["start"])
+                ok, action = self.api("continue_task", Action.continue_task, task_id=tid, action_type=node["type"], **dict(node["start"], nid=node["nid"]))
                 if not ok:
                     return
                 self._run_remote_action(node, gt, action, expect_outer)
